@@ -1,8 +1,12 @@
 #![allow(dead_code, unused_mut, clippy::all)]
 mod c01;
 mod c02;
+mod c02_pool;
+mod c05;
+mod c06;
 mod c03;
 mod c04;
+mod c14;
 mod corpus;
 mod dbg;
 mod endpoints;
@@ -35,6 +39,9 @@ fn main() {
         "C03" => c03::run(tier, replay),
         "C04" if worker => c04::worker(tier),
         "C04" => c04::run(tier, replay),
+        "C05" => c05::run(tier, replay),
+        "C06" => c06::run(tier, replay),
+        "C14" => c14::run(tier, replay),
         _ => {
             eprintln!("usage: codec_harness <C01..C06|C14> quick|thorough [--replay file]");
             2
